@@ -742,10 +742,12 @@ class PureScheduler:                                    # pylint: disable=r0902
                     task,
                     "TIDYING {} {} {}"
                     .format(job.repr_id(), job.repr_short(), job.repr_main()))
-        # don't bother to set a timeout,
-        # this is expected to be immediate
-        # since all tasks are canceled
-        await asyncio.gather(*exception_tasks, return_exceptions=True)
+        # these tasks are done already: retrieving their exception is
+        # enough, and does not yield to the event loop - with gather() on
+        # python<=3.11 other jobs could finish unnoticed in the meanwhile,
+        # e.g. a critical one raising right before success gets reported
+        for task in exception_tasks:
+            task.exception()
 
     @staticmethod
     def _show_task_stack(task, msg='STACK', margin=4, limit=None):
